@@ -134,6 +134,11 @@ def gen(rng, tier):
             n = rng.choice([3, 4, 5, 8, 15, 40])
             factor = rng.choice([1.0, float(n), 1000.5])
             yield Case("c20dir", [seed(), fb(factor), fbl([a] * n)], True, "dirichlet-shape-%g" % a)
+    # tiny equal shapes, three components, many seeds: most gamma variates underflow to 0 and the sum of the others can
+    # be subnormal - the normalisation must still give finite values that sum to the total
+    for _ in range(300 if quick else 3000):
+        a = rng.choice([0.001, 0.0015, 0.002, 0.003])
+        yield Case("c20dir", [seed(), fb(1.0), fbl([a] * 3)], True, "dirichlet-tiny-shape")
     # mixed shapes (sampler switches algorithm inside one call)
     for _ in range(40 if quick else 400):
         n = rng.randint(3, 12)
@@ -255,6 +260,16 @@ def classify(c):
     # (1) pow(p, 1/alpha) underflows to exactly 0 in the alpha < 1 branch of stats.gamma
     if c.op == "c20dir" and cl == {"zero-weight"} and min(_floats(c.args[2]) or [1.0]) < 0.05:
         return "gamma-sampler-underflows-to-zero-for-tiny-shape"
+    # the same root cause when EVERY variate of the call underflows to 0: the sum is 0 and every weight is 0/0 = NaN (the
+    # recorded entry names this case); recognised only when the exact replay also has all variates at 0, i.e. the model's
+    # answer is all NaN too - an answer with an infinite entry, or NaN where the replay is finite, is NOT this finding
+    if c.op == "c20dir" and min(_floats(c.args[2]) or [1.0]) < 0.05 and cl <= {"finite", "negative-weight", "zero-weight", "sum-eq-factor"}:
+        def _all_nan(txt):
+            toks = (txt or "").split()
+            vals = [t.split(":")[1] for t in toks[2:] if t.startswith("f:")]
+            return len(toks) > 2 and toks[0] == "ok" and vals and all(int(h, 16) & 0x7fffffffffffffff > 0x7ff0000000000000 for h in vals)
+        if _all_nan(c.impl) and _all_nan(c.model):
+            return "gamma-sampler-underflows-to-zero-for-tiny-shape"
     if c.op == "c20gamma" and cl == {"zero-weight"} and _floats(c.args[1])[0] < 0.05:
         return "gamma-sampler-underflows-to-zero-for-tiny-shape"
     # (2) NaN / +Inf parameter: `a <= 0.0` is false, the sampler loops forever
